@@ -67,6 +67,34 @@ def witness(ck):
     return res
 
 
+def _split_top(val):
+    """split a printed Coq list "[a; b; c]" at its top-level semicolons"""
+    val = val.strip()
+    if val.startswith("[") and val.endswith("]"):
+        val = val[1:-1]
+    parts, cur, depth, instr = [], [], 0, False
+    for ch in val:
+        if instr:
+            cur.append(ch)
+            if ch == '"':
+                instr = False
+            continue
+        if ch == '"':
+            instr = True
+        elif ch in "([":
+            depth += 1
+        elif ch in ")]":
+            depth -= 1
+        elif ch == ";" and depth == 0:
+            parts.append("".join(cur).strip())
+            cur = []
+            continue
+        cur.append(ch)
+    if "".join(cur).strip():
+        parts.append("".join(cur).strip())
+    return parts
+
+
 def failing(w):
     """names of the Inst lemmas that fail according to a witness dict, with their cells"""
     bad = {}
@@ -76,12 +104,13 @@ def failing(w):
         if grp == "FAILING split discipline":
             bad["split_discipline_all_modes"] = val
             continue
-        # split the printed list into its ("name", ...) entries
-        names = re.findall(r'\("(\w+)", ', val)
-        parts = re.split(r'(?=\("\w+", )', val.strip("[]"))
-        parts = [p.strip().rstrip(";").strip() for p in parts if p.strip()]
-        for n, p in zip(names, parts):
-            bad[n] = p
+        for part in _split_top(val):
+            m = re.match(r'\("(\w+)", (.*)\)$', part, flags=re.S)
+            if m:
+                bad[m.group(1)] = m.group(2)
+            else:
+                bad.setdefault(grp, "")
+                bad[grp] += part
     return bad
 
 
